@@ -255,11 +255,13 @@ PROPS = {
     ),
     "C19": dict(
         functions=[CS + "CorpusShufflingTool.corpus_from_reference#names", CS + "CorpusShufflingTool.corpus_from_reference#count",
-                   CS + "CorpusShufflingTool.false_neg_shuffle", CT + "Continuum.__getitem__#annotator"]
+                   CS + "CorpusShufflingTool.false_neg_shuffle", CS + "CorpusShufflingTool.shift_shuffle", CT + "Continuum.__getitem__#annotator"]
                   + [CT + "Continuum." + m for m in ("__init__", "add", "remove", "iter_annotator", "annotators", "bounds")] + [CT + "Unit.__lt__"],
         oracles=[CS + "CorpusShufflingTool.corpus_shuffle"],
         bounded=[dict(oracle=CS + "CorpusShufflingTool.corpus_shuffle",
-                      what="shift / false-positive / category / split shuffles, corpus_shuffle and __init__ are not under contract yet: seeded runs "
+                      what="shift_shuffle is proved at the set level (every unit is an old unit of the same annotator moved by at most shift_max, label "
+                           "kept; nothing at magnitude 0); its COUNT clause needs the genericity hypothesis G and is bounded. false-positive / "
+                           "category / split shuffles, corpus_shuffle and __init__ are not under contract: seeded runs "
                            "on random single-annotator references, magnitudes 0 / 0.2 / 0.5 / 1, names or counts, every flag alone and random "
                            "combinations, include_ref: annotator set, non-emptiness, positive durations, categories, magnitude-0 identity and "
                            "the confinement clause of the single active perturbation")],
@@ -268,7 +270,9 @@ PROPS = {
                      "splits_shuffle: when the cut falls within 1e-6 of the end the first add raises and the fallback re-inserts the unsplit unit "
                      "(no unit added for that announced split): a draw of measure ~1e-6/length, read in the code, not reproduced by the bounded runs",
                      "the amount of perturbation per magnitude (statistical)"],
-        trusted=S_COMMON + ["model: random generators (support only)", "model: sortedcontainers / deepcopy / f-string with one integer hole"],
+        trusted=S_COMMON + ["model: random generators (support only)", "model: sortedcontainers / deepcopy / f-string with one integer hole",
+                            "class constant SHIFT_FACTOR == 2 (read from the class body, a requires of shift_shuffle)",
+                            "Continuum.avg_length_unit assumed positive on a continuum with a valid unit"],
     ),
     "C10": dict(
         functions=[CT + "Continuum.get_fast_alignment", AL + "Alignment.take_until_limit", CT + "_compute_fast_alignment_job",
